@@ -1035,6 +1035,23 @@ impl<'a> Sim<'a> {
                 amount, raised, queued.iter().map(|q| (q.symbol.clone(), q.shares)).collect::<Vec<_>>(), fmt_map(&o_at.holdings),
                 o_at.quotes.iter().map(|(k, v)| (k.clone(), v.0)).collect::<Vec<_>>()
             );
+            // One position, sold in full: the worth of the sale is ONE product, bid x quantity, with no
+            // order-dependent sum behind it, so "worth at least the requested amount" is judged exactly
+            // (the tolerance above exists for sums of several sales only).
+            if queued.len() == 1 && o_at.holdings.len() == 1 {
+                let q = &queued[0];
+                if let (Some(held), Some(bid)) = (o_at.holdings.get(&q.symbol), o_at.quotes.get(&q.symbol)) {
+                    let full = if self.json { close(q.shares, *held, 1e-12) } else { q.shares == *held };
+                    if full {
+                        self.ctx.bump("probe_liquidation_single_full_sale_judged_exactly");
+                        rule!(
+                            self.ctx, "C10", "raises-enough", "exact-single-position", bid.0 * *held >= amount,
+                            "{what}: liquidation of {:?} reported success but the one position it sells in full ({:?} {} at bid {:?}) is worth {:?}",
+                            amount, held, q.symbol, bid.0, bid.0 * *held
+                        );
+                    }
+                }
+            }
             if queued.len() > 1 {
                 self.ctx.bump("probe_liquidation_several_positions");
             }
